@@ -23,9 +23,9 @@ func init() {
 		},
 		NumCases: func(tier string) int {
 			if tier == "thorough" {
-				return c01EnumCases("thorough") + 160000
+				return c01EnumCases("thorough") + 5000000
 			}
-			return c01EnumCases("quick") + 30000
+			return c01EnumCases("quick") + 100000
 		},
 		Run:    c01Run,
 		Floors: c01Floors,
